@@ -23,7 +23,7 @@ func scCase(sc boxlib.Scenario, pos, alt int, isRoot bool) harness.Case {
 			if json.Unmarshal(c.Replay, &rp) == nil {
 				r := &explore.Recorder{Prefix: rp.Choices}
 				res := boxlib.Run(c, rp.Scenario, r)
-				boxlib.Oracle(c, rp.Scenario, res, rp)
+				oracleOnce(c, rp.Scenario, res, rp, map[string]bool{})
 			}
 			return
 		}
@@ -69,6 +69,15 @@ func scCase(sc boxlib.Scenario, pos, alt int, isRoot bool) harness.Case {
 // oracleOnce suppresses repeated reports of the same signature within a case.
 func oracleOnce(c *harness.C, sc boxlib.Scenario, res *boxlib.Result, rp boxlib.Replay, reported map[string]bool) string {
 	return boxlib.OracleCore(sc, res, rp, func(clause, sig, detail string) {
+		if hangOnly {
+			// the same exploration decides the buffer's part of C10: no input in no interleaving
+			// wedges the box (the functional clauses belong to C14)
+			if !strings.HasPrefix(sig, "c14-deadlock") {
+				return
+			}
+			sig = "c10-box-wedged" + strings.TrimPrefix(sig, "c14-deadlock")
+			clause = "no-hang"
+		}
 		c.Add("violating_schedules:"+sig, 1)
 		if !reported[sig] {
 			reported[sig] = true
@@ -77,7 +86,14 @@ func oracleOnce(c *harness.C, sc boxlib.Scenario, res *boxlib.Result, rp boxlib.
 	})
 }
 
+var hangOnly = os.Getenv("VERIF_FAMILY") == "hang"
+
 func gen(c *harness.C) []harness.Case {
+	if hangOnly {
+		if p := os.Getenv("VERIF_PROP"); p != "" {
+			c.Property = p
+		}
+	}
 	c.Note("rule", "real msg.Box with sync/atomic rewritten to scheduling shims; threads = concurrent Box.HandleMessage (R) and Box.Send (S) calls; every interleaving at lock/atomic granularity within the preemption bound (2-thread scenarios: unbounded); oracle at the end of every interleaving; states = distinct schedule prefixes; distinct_nontrivial = distinct (scenario, outcome class, hand-over log)")
 	if !overlayActive() {
 		c.Note("c14-overlay", "shim overlay not active: scheduling points missing, exploration is vacuous")
